@@ -23,8 +23,16 @@ Definition is_bench (a : act) : bool := match a with Bench => true | _ => false 
 Record cfg := {
   c_run_ignored : run_ignored;
   c_opts : opts;                 (* Divan.bench_options (run-time level) *)
-  c_filter : str -> bool         (* Divan::filter *)
+  c_filter : str -> bool;        (* Divan::filter *)
+  c_threads : list N             (* run-time [threads] (--threads / DIVAN_THREADS / Divan::threads), sorted, distinct,
+                                    non-zero as config_with_args / the builder leave them; [] = not given *)
 }.
+
+(** The thread counts a benchmark runs over.  Run-time options win over entry and
+    group options; entry-level [threads] other than absent / empty are not modelled
+    (an absent or empty list is one run on one thread: the [is_empty] fallback). *)
+Definition thread_counts (c : cfg) : list N :=
+  match c_threads c with [] => [1] | l => l end.
 
 Definition should_ignore (c : cfg) (ignored : bool) : bool :=
   negb (should_run (c_run_ignored c) ignored).
@@ -43,7 +51,9 @@ Inductive action :=
 | APrintln (line : str)
 | AMakeRunner (id : N)                               (* [bench_runner()] in run_bench_entry *)
 | ANewBencher (id : N)                               (* BenchContext::new + Bencher::new *)
-| AInvoke (id : N) (path : str) (arg : option (N * value)).   (* with_bencher(..): the entry's function runs *)
+| AInvoke (id : N) (path : str) (arg : option (N * value))    (* with_bencher(..): the entry's function runs *)
+| AInvokeMore (id : N) (path : str) (arg : option (N * value)) (threads : N).
+                                 (* the same case again, for a further thread count *)
 
 (** A walk can be cut short by a panic. *)
 Definition trace := (list action * option panic)%type.
@@ -62,15 +72,33 @@ Definition merge_opts (parent child : option opts) : option opts :=
   | Some p, Some c => Some (opts_overwrite c p)
   end.
 
-(** The [run_bench] closure for one thread count. *)
-Definition run_bench (a : act) (id : N) (name path : str) (is_last : bool)
+(** The [run_bench] closure (divan.rs:371-430).  One thread count: a leaf labelled
+    [name].  Two or more ([has_thread_branches]): a parent labelled [name] with one
+    leaf "t=N" per thread count. *)
+Definition thread_name (tc : N) : str := [116; 61] ++ dec_of_N tc.       (* format!("t={thread_count}") *)
+
+Fixpoint run_threads (a : act) (id : N) (path : str) (arg : option (N * value)) (first : bool) (tcs : list N)
+  : list action :=
+  match tcs with
+  | [] => []
+  | tc :: tl =>
+      [AStartLeaf (thread_name tc) (join_path path (thread_name tc)) (is_nil tl); ANewBencher id;
+       if first then AInvoke id path arg else AInvokeMore id path arg tc;
+       if is_bench a then AFinishLeafStats else AFinishEmptyLeaf]
+      ++ run_threads a id path arg false tl
+  end.
+
+Definition run_bench (tcs : list N) (a : act) (id : N) (name path : str) (is_last : bool)
            (arg : option (N * value)) : list action :=
-  [AStartLeaf name path is_last; ANewBencher id; AInvoke id path arg;
-   if is_bench a then AFinishLeafStats else AFinishEmptyLeaf].
+  match tcs with
+  | _ :: _ :: _ => [AStartParent name path is_last] ++ run_threads a id path arg true tcs ++ [AFinishParent]
+  | _ => [AStartLeaf name path is_last; ANewBencher id; AInvoke id path arg;
+          if is_bench a then AFinishLeafStats else AFinishEmptyLeaf]
+  end.
 
 (** The loop over [bench_arg_names]: pointer -> index ([slice_ptr_index]) ->
     [typed_args[arg_index]] (an indexing operation: out of range panics). *)
-Fixpoint run_args (a : act) (e : any_entry) (vals : list value) (path : str) (args : list N) : trace :=
+Fixpoint run_args (tcs : list N) (a : act) (e : any_entry) (vals : list value) (path : str) (args : list N) : trace :=
   match args with
   | [] => tret []
   | i :: tl =>
@@ -78,8 +106,8 @@ Fixpoint run_args (a : act) (e : any_entry) (vals : list value) (path : str) (ar
       | None => ([AStartLeaf (arg_label e i) (arg_path path e i) (is_nil tl); ANewBencher (entry_id e)],
                  Some OutOfBounds)
       | Some v =>
-          tseq (tret (run_bench a (entry_id e) (arg_label e i) (arg_path path e i) (is_nil tl) (Some (i, v))))
-               (run_args a e vals path tl)
+          tseq (tret (run_bench tcs a (entry_id e) (arg_label e i) (arg_path path e i) (is_nil tl) (Some (i, v))))
+               (run_args tcs a e vals path tl)
       end
   end.
 
@@ -93,10 +121,10 @@ Definition run_bench_entry (c : cfg) (a : act) (e : any_entry) (args : option (l
   if should_ignore c (default_false (o_ignore options)) then tret [AIgnoreLeaf name path is_last]
   else if is_list a then tret [AStartLeaf name path is_last; AFinishEmptyLeaf]
   else match entry_runner e with
-       | RPlain => tret (run_bench a (entry_id e) name path is_last None)
+       | RPlain => tret (run_bench (thread_counts c) a (entry_id e) name path is_last None)
        | RArgs _ vals =>
            tseq (tret [AStartParent name path is_last; AMakeRunner (entry_id e)])
-                (tseq (run_args a e vals path (match args with Some l => l | None => [] end))
+                (tseq (run_args (thread_counts c) a e vals path (match args with Some l => l | None => [] end))
                       (tret [AFinishParent]))
        end.
 
@@ -167,7 +195,7 @@ Definition executed (l : list action) : list (N * str * option (N * value)) :=
 Definition exec_paths (l : list action) : list str := map (fun x => snd (fst x)) (executed l).
 
 Definition runs_something (x : action) : bool :=
-  match x with ANewBencher _ | AInvoke _ _ _ | AMakeRunner _ => true | _ => false end.
+  match x with ANewBencher _ | AInvoke _ _ _ | AInvokeMore _ _ _ _ | AMakeRunner _ => true | _ => false end.
 
 (** Painted nodes: kind (0 parent, 1 ignored leaf, 2 leaf) and ghost path. *)
 Definition painted (l : list action) : list (N * str) :=
